@@ -74,6 +74,13 @@ def scenarios(tier):
                      no_cheatfds=True, make_player=1), 1 if q else 2))
     L.append((SC.scn("make-log-failshared-n2", w["failshared"], ["redo-ifchange a b"], visible=VIS, jobserver=2, limit=2, may_fail=True,
                      no_cheatfds=True, log_mode=True), 0 if q else 1))
+    # an error exit of a special kind: a sub-redo cannot start its job at all (no file descriptors left for the job's pipe);
+    # the script that asked goes on without the dependency.  Whatever happens, the tokens are all there at the end.
+    uw = World("nofds", {"s": ["0", "1"]},
+               {"all.do": [S(deps=["x"], tolerant=True, ulimit_n=45)], "x.do": [S(deps=["s"], out="file")], "y.do": [S(deps=["s"])]},
+               ["all", "x", "y"], ["all"])
+    L.append((SC.scn("own-job-cannot-be-started-j3", uw, ["redo --no-log -j3 all y"], visible=VIS, limit=3, may_fail=True), 0 if q else 1))
+    L.append((SC.scn("inherit-job-cannot-be-started-n3", uw, ["redo-ifchange all y"], visible=VIS, jobserver=3, limit=3, may_fail=True), 0 if q else 1))
     # own jobserver: redo -jN creates the pipes and checks itself on exit
     L.append((SC.scn("own-fan3-j2", w["fan3"], ["redo --no-log -j2 top"], visible=VIS, limit=2), 1 if q else 2))
     L.append((SC.scn("own-fan3x2-j2", w["fan3x2"], ["redo --no-log -j2 t1 t2"], visible=VIS, limit=2), 1 if q else 2))
